@@ -437,6 +437,8 @@ func ruleSamplesReach(w *World, r *Report, pfx string) {
 				sub, ok := o.(*ssa.BinOp)
 				if !ok || sub.Op != token.SUB || !w.isParamOf(sub.X, off.Fn, 1) || !isLoad(Val{V: sub.Y}, tBState, "current") {
 					bad = "the amount handed to the estimators is not (new current - old current)"
+				} else if in, ok := ssa.Value(sub).(ssa.Instruction); ok && in.Parent() != clo {
+					bad = "the amount (new current - old current) is computed inside the spawned goroutine: it reads current concurrently with the closure's own store (data race; estimators usually see 0)"
 				} else if fnStoresBefore(clo, sub) {
 					bad = "the amount is computed after current was overwritten"
 				}
@@ -632,4 +634,6 @@ func checkC20(w *World, r *Report) {
 	ruleTimeProducers(w, r, "C20")
 	ruleStatisticsFaithful(w, r, "C20")
 	checkWaitGroups(w, r, "C20")
+	ruleMedianReadOnly(w, r, "C20")
+	ruleLoopVarCapture(w, r, "C20.LOOPVAR")
 }
